@@ -2,6 +2,7 @@ package server
 
 import (
 	"bytes"
+	"errors"
 	"math"
 	"strconv"
 	"strings"
@@ -802,6 +803,11 @@ func (s *Server) cmdSET(msg *Message) (resp.Value, commandDetails, error) {
 			if err != nil {
 				return retwerr(err)
 			}
+			if geoNonFinite(oobj) {
+				// [null,12.3] parses to NaN and 1e999 to +Inf; POINT and
+				// BOUNDS refuse such numbers as well
+				return retwerr(errors.New("invalid coordinates"))
+			}
 		default:
 			return retwerr(errInvalidArgument(args[i]))
 		}
@@ -1317,4 +1323,43 @@ func (s *Server) cmdFEXISTS(msg *Message) (resp.Value, error) {
 				time.Since(start).String() + "\"}"), nil
 	}
 	return resp.BoolValue(exists), nil
+}
+
+// geoNonFinite reports whether a parsed GeoJSON object holds a coordinate that
+// is NaN or infinite. Such a box corrupts the spatial index (ordinary objects
+// nearby are no longer found), and the object does not read back as written.
+func geoNonFinite(obj geojson.Object) bool {
+	bad := func(vals ...float64) bool {
+		for _, f := range vals {
+			if math.IsNaN(f) || math.IsInf(f, 0) {
+				return true
+			}
+		}
+		return false
+	}
+	var check func(geom geojson.Object) bool
+	check = func(geom geojson.Object) bool {
+		switch g := geom.(type) {
+		case *geojson.Circle:
+			// the polygon of a disc touching a pole has NaN vertices of its
+			// own; what was given is the centre and the radius
+			c := g.Center()
+			return bad(c.X, c.Y, g.Meters())
+		case *geojson.Point:
+			if bad(g.Z()) {
+				return true
+			}
+		}
+		r := geom.Rect()
+		return bad(r.Min.X, r.Min.Y, r.Max.X, r.Max.Y)
+	}
+	if _, ok := obj.(*geojson.Circle); ok {
+		return check(obj)
+	}
+	nonFinite := false
+	obj.ForEach(func(geom geojson.Object) bool {
+		nonFinite = check(geom)
+		return !nonFinite
+	})
+	return nonFinite
 }
